@@ -1,6 +1,7 @@
 package checks
 
 import (
+	"errors"
 	"fmt"
 	"testing"
 
@@ -119,6 +120,12 @@ func checkC04(c *c04Case) (msg string, nontrivial bool, labels []string) {
 			if ea != nil {
 				continue // the original does not evaluate here: nothing is claimed
 			}
+			if _, rerr := lib.Eval(l.n, &lib.Env{K: p.K, V: p.V}); errors.Is(rerr, lib.ErrMagnitude) {
+				// the original only "evaluates" by wrapping around int64 (or
+				// rounding beyond 2^53): not a value the rewrite must preserve
+				labels = append(labels, "skipped-overflowing-original")
+				continue
+			}
 			anyEvaluable = true
 			vb, eb, pb := safeExec(opt, chunk[i])
 			if pb != "" {
@@ -151,6 +158,9 @@ func checkC04(c *c04Case) (msg string, nontrivial bool, labels []string) {
 				return fmt.Sprintf("%s of %q: original %s evaluates in batch form but the rewritten %s fails: %v", l.name, q, before, after, eb), rewritten, labels
 			}
 			for i := range vas {
+				if _, rerr := lib.Eval(l.n, &lib.Env{K: c.Pairs[i].K, V: c.Pairs[i].V}); errors.Is(rerr, lib.ErrMagnitude) {
+					continue
+				}
 				if !lib.EqualVal(vas[i], vbs[i]) {
 					return fmt.Sprintf("%s of %q, batch form, pair (%q,%q): original %s = %s, rewritten %s = %s", l.name, q, c.Pairs[i].K, c.Pairs[i].V, before, lib.Show(vas[i]), after, lib.Show(vbs[i])), rewritten, labels
 				}
